@@ -418,7 +418,7 @@ def run_validator(acc, P, job, names):
             x //= M
         for variant in ('file', 'missing', 'partial-registration',
                         'unparseable', 'subset', 'no-registration',
-                        'defaults-carry'):
+                        'defaults-carry', 'unparseable-over-deny'):
             file_rules = dict(rules)
             registered = list(names)
             bodies = {n: '@' for n in names}
@@ -436,6 +436,11 @@ def run_validator(acc, P, job, names):
                 registered = []
             if variant == 'unparseable':
                 file_rules[names[0]] = 'role:x and'
+            if variant == 'unparseable-over-deny':
+                # ... where the service's own default for that name is '!'
+                # (what an unparseable rule is turned into)
+                bodies[names[0]] = '!'
+                file_rules[names[0]] = 'role:x and (('
             if variant == 'subset':
                 # only the first name in the file; the others keep defaults
                 file_rules = {names[0]: rules[names[0]]}
@@ -469,12 +474,13 @@ def run_validator(acc, P, job, names):
                     core.quiet_logging()
                 effective = {n: bodies[n] for n in registered}
                 effective.update(file_rules)
-                if variant == 'unparseable':
+                if variant in ('unparseable', 'unparseable-over-deny'):
                     effective[names[0]] = '!'
                 undefined, cyc = graph_problem(effective)
                 exp = 1 if (missing or undefined or cyc or
                             variant in ('partial-registration',
-                                        'unparseable', 'no-registration'))\
+                                        'unparseable', 'no-registration',
+                                        'unparseable-over-deny'))\
                     else 0
                 if missing:
                     exp = 1
